@@ -280,6 +280,10 @@ def nodes_for_predicate(
     return nodes
 
 
+_ARITHMETIC = (exp.Add, exp.Sub, exp.Mul, exp.Div, exp.IntDiv, exp.Mod, exp.Neg)
+_COMPARISONS = (exp.EQ, exp.NEQ, exp.GT, exp.GTE, exp.LT, exp.LTE)
+
+
 def replace_aliases(source: exp.Select, predicate: exp.Expr) -> exp.Expr:
     aliases: dict[str, exp.Expr] = {}
 
@@ -291,7 +295,20 @@ def replace_aliases(source: exp.Select, predicate: exp.Expr) -> exp.Expr:
 
     def _replace_alias(column: exp.Expr) -> exp.Expr:
         if isinstance(column, exp.Column) and column.name in aliases:
-            return aliases[column.name].copy()
+            replacement = aliases[column.name].copy()
+            # Keep the projection's grouping when it lands inside another operator,
+            # e.g. o1 = TRUE with o1 := a = b must not read a = b = TRUE
+            if (
+                isinstance(replacement, (exp.Binary, exp.Unary, exp.Predicate))
+                and isinstance(column.parent, (exp.Binary, exp.Unary, exp.Predicate))
+                and not (
+                    # arithmetic binds tighter than the comparison it is compared in
+                    isinstance(replacement, _ARITHMETIC)
+                    and isinstance(column.parent, _COMPARISONS)
+                )
+            ):
+                replacement = exp.paren(replacement, copy=False)
+            return replacement
         return column
 
     return predicate.transform(_replace_alias)
